@@ -136,7 +136,8 @@ class Fault(Exec):
 
 
 FAULT_KINDS = ['log_badexpr', 'assign_badexpr', 'assign_undeclared', 'assign_sysvar', 'send_badtype',
-               'send_badtarget', 'if_badcond', 'raise_noevent_ok']
+               'send_badtarget', 'if_badcond', 'raise_noevent_ok', 'send_badparam', 'send_badparam_runtime', 'send_badeventexpr',
+               'send_baddelayexpr', 'log_runtime', 'foreach_badarray']
 
 
 class Trans:
@@ -312,6 +313,18 @@ class Chart:
                     w('%s<send%s event="zz" target="!baz"/>' % (ind, v))
                 elif k == 'if_badcond':
                     w('%s<if%s cond="%s"><log label="never" expr="1"/></if>' % (ind, v, esc(bad_expr(dm))))
+                elif k == 'send_badparam':
+                    w('%s<send%s event="zz"><param name="ok" expr="1"/><param name="p" expr="%s"/></send>' % (ind, v, esc(bad_expr(dm))))
+                elif k == 'send_badparam_runtime':
+                    w('%s<send%s event="zz"><param name="p" expr="%s"/></send>' % (ind, v, esc(runtime_bad_expr(dm))))
+                elif k == 'send_badeventexpr':
+                    w('%s<send%s eventexpr="%s"/>' % (ind, v, esc(bad_expr(dm))))
+                elif k == 'send_baddelayexpr':
+                    w('%s<send%s event="zz" delayexpr="%s"/>' % (ind, v, esc(bad_expr(dm))))
+                elif k == 'log_runtime':
+                    w('%s<log%s label="F" expr="%s"/>' % (ind, v, esc(runtime_bad_expr(dm))))
+                elif k == 'foreach_badarray':
+                    w('%s<foreach%s array="%s" item="it"><log label="never" expr="1"/></foreach>' % (ind, v, esc(bad_expr(dm))))
                 else:
                     raise ValueError(k)
             else:
@@ -400,6 +413,11 @@ class Chart:
 
 def bad_expr(dm):
     return {'lua': '%% !!', 'promela': '%% !!', 'null': '%% !!'}[dm]
+
+
+def runtime_bad_expr(dm):
+    """well-formed, fails when evaluated"""
+    return {'lua': 'nosuch.field.deep', 'promela': '1 / 0', 'null': '%% !!'}[dm]
 
 
 def undeclared_loc(dm):
